@@ -136,8 +136,14 @@ def _check_parity(case, distinct):
     grid_size, grid_limit, cw = case["grid_size"], case["grid_limit"], case["cw"]
     swn = bool(case.get("swn"))
     learner = ExactTableW if swn else (ExactTableNested if case.get("nested") else ExactTable)
+    prior = case.get("prior_limit")
     gs = GridSearch(learner(tie=case.get("tie", 0)), R.build_moment(case), constraint_weight=cw,
-                    grid_size=grid_size, grid_limit=grid_limit, **({"sample_weight_name": "w"} if swn else {}))
+                    grid_size=grid_size, grid_limit=prior if prior else grid_limit, **({"sample_weight_name": "w"} if swn else {}))
+    if prior:
+        # the same estimator object was used before with another grid_limit (a sweep over grid_limit):
+        # everything below is demanded of the refit
+        gs.fit(X, y, sensitive_features=sf)
+        gs.set_params(grid_limit=grid_limit)
     gs.fit(X, y, sensitive_features=sf)
 
     P = R.Problem(case)
@@ -188,6 +194,8 @@ def _check_parity(case, distinct):
         need(abs(v1 - v2) <= 1e-9, f"user grid (reversed order): selected trade-off value {v2!r}, generated grid selected {v1!r}")
 
     tags = ["m:" + case["moment"], "groups%d" % len(P.group_values)]
+    if case.get("prior_limit"):
+        tags.append("refit_after_other_grid_limit")
     if case.get("user_grid"):
         tags.append("user_grid")
     if case.get("nested") and not swn:
@@ -348,6 +356,8 @@ def _with_grid(draw, case):
     if case.get("moment") == "ErrorRateParity" and draw(st.integers(0, 2)) > 0:
         case["grid_limit"] = draw(st.sampled_from([2.0, 3.0, 5.0]))
         case["grid_size"] = max(case["grid_size"], 10)
+    if draw(st.integers(0, 3)) == 0:
+        case["prior_limit"] = draw(st.sampled_from([0.5, 2.0, 4.0, 10.0]))
     return case
 
 
